@@ -51,6 +51,9 @@ func (c *badRegexpChecker) VisitExpr(x ast.Expr) {
 		return
 	}
 
+	if len(call.Args) == 0 {
+		return
+	}
 	switch qualifiedName(call.Fun) {
 	case "regexp.Compile", "regexp.MustCompile":
 		cv := c.ctx.TypesInfo.Types[call.Args[0]].Value
